@@ -343,8 +343,11 @@ C02_no_overlap == Len(Procs(out)) <= 1 \/ SyncProc
 C03_behind ==
     \A k \in DOMAIN out : out[k][1] = "commit" =>
         /\ out[k][2] = s.creq.off
-        \* (an offset processed before an application-requested restart is outside this run's deliveries)
-        /\ out[k][2] \in h.runOK => \A i \in DOMAIN h.delivered : h.delivered[i] <= out[k][2] => h.delivered[i] \in h.procOK
+        \* (an offset processed before an application-requested restart is outside this run's deliveries; what is handed
+        \*  to the processor later in the same event -- a parked reply -- was not delivered when the commit was issued)
+        /\ out[k][2] \in h.runOK =>
+              LET later == UNION {SeqToSet(out[j][2]) : j \in {j2 \in DOMAIN out : j2 > k /\ out[j2][1] = "proc"}} IN
+              \A i \in DOMAIN h.delivered : (h.delivered[i] <= out[k][2] /\ h.delivered[i] \notin later) => h.delivered[i] \in h.procOK
 C03_recorded == s.lc = -1 \/ s.lc \in h.acked
 \* C13: the start Deferred fires at most once per start; nothing happens once stopped
 C13_start_once == h.startFires <= 1
